@@ -73,7 +73,24 @@ type Cons struct {
 	NotV  *Schema  // not around a validator
 	Pat   *Pattern
 	Raw   string // malformed: rendered verbatim instead of everything above
+	// in: the language's own equality as a second reference (see EqualRef); nil
+	// = pairs the constraint's documentation alone does not decide stay unjudged.
+	EqRef EqualRef
+	// in: told every time the constraint meets an input that is kin to an
+	// allowed value (coverage of that input class is measured, not assumed).
+	OnKin func(kin string, verdict int)
 }
+
+// EqualRef answers "are v and a equal as far as the LANGUAGE is concerned" —
+// (equal? v a), evaluated by the caller in the runtime under test: 1 equal,
+// 0 different, -1 no answer.  s:in is documented as "checks if the input is
+// equal to one of the allowed values"; the only equality the language defines
+// is equal? ("structurally equal, performing deep comparison across all value
+// types"), so wherever the libschema text on its own leaves a pair open (is 1
+// equal to 1.0?  "red" to 'red?  two maps, two tagged values?) membership must
+// agree with equal?.  The model itself stays free of interpreter calls: the
+// reference is injected.
+type EqualRef func(v, a *Value) int
 
 // How a schema is built.
 const (
@@ -434,8 +451,16 @@ func boolOut(ok bool) Out {
 	return FailedConstraint
 }
 
-// ValueEqual is the documented part of "equal to one of the allowed values":
-// 1 = equal, 0 = different, -1 = not decided by the documentation.
+// ValueEqual is the part of "equal to one of the allowed values" that needs no
+// reference beyond the words themselves: 1 = equal, 0 = different, -1 = open
+// (decided by the language's equal? when an EqualRef is at hand, else not
+// judged).
+//
+// Open: int against float that coincide as float64 (is 1 equal to 1.0?),
+// string against symbol of the same spelling, everything that involves bytes
+// of the same content, containers / tagged values / functions of the same
+// kind.  Decided: scalars of one kind by content; numbers that differ even
+// after rounding to float64; values of different kinds otherwise.
 func ValueEqual(a, b *Value) int {
 	if a.IsNum() && b.IsNum() {
 		if a.K == b.K {
@@ -448,9 +473,6 @@ func ValueEqual(a, b *Value) int {
 			}
 			return 0
 		}
-		// int against float: whether 1 equals 1.0 is not documented; values
-		// that differ even after rounding to float64 are different under
-		// every reading.
 		fa, fb := toF(a), toF(b)
 		if fa != fb {
 			return 0
@@ -458,11 +480,10 @@ func ValueEqual(a, b *Value) int {
 		return -1
 	}
 	if a.K != b.K {
-		if (a.K == VStr && b.K == VSym || a.K == VSym && b.K == VStr) && a.S == b.S {
-			return -1
-		}
-		if (a.K == VNil && b.K == VList) || (a.K == VList && b.K == VNil) {
-			return 0
+		ta, oka := textOf(a)
+		tb, okb := textOf(b)
+		if oka && okb && ta == tb {
+			return -1 // "red" / 'red / (to-bytes "red")
 		}
 		return 0
 	}
@@ -475,10 +496,13 @@ func ValueEqual(a, b *Value) int {
 	case VNil:
 		return 1
 	case VBytes:
-		if string(a.B) == string(b.B) {
-			return 1
+		if string(a.B) != string(b.B) {
+			return 0
 		}
-		return 0
+		// Same content: "equal" by any plain reading, but the language defines no
+		// structural equality for bytes ((equal? b b) is false), and s:in is
+		// documented in terms of "equal": left to the reference.
+		return -1
 	}
 	return -1
 }
@@ -540,7 +564,16 @@ func EvalCons(c *Cons, v *Value) Out {
 	case "in":
 		undecided := false
 		for _, a := range c.Vals {
-			switch ValueEqual(v, a) {
+			eq := ValueEqual(v, a)
+			if eq == -1 && c.EqRef != nil {
+				eq = c.EqRef(v, a)
+			}
+			if c.OnKin != nil {
+				if kin := KinOf(v, a); kin != "" {
+					c.OnKin(kin, eq)
+				}
+			}
+			switch eq {
 			case 1:
 				return Accept
 			case -1:
